@@ -83,13 +83,30 @@ def _ties(ctx, side):
     r = ctx.recv[side]
     o = ctx.other("tc", 0)
     rx = r.get("x") if side == "td" else r.x
-    rny = r.get(("n", "y")) if side == "td" else r.n.y
+    has_n = "n" in ctx.cls.__expected_keys__
+    rny = (r.get(("n", "y")) if side == "td" else r.n.y) if has_n else None
     o.x = rx.clone() + torch.tensor([-1.0, 0.0, 1.0, 0.0])
-    o.n.y = rny.clone() + torch.tensor([0.0, 1.0, -1.0])
+    if rny is not None:
+        o.n.y = rny.clone() + torch.tensor([0.0, 1.0, -1.0])
     return ((o if side == "tc" else o._tensordict,), {})
 
 
 reg("__eq__ __ne__ __ge__ __gt__ __le__ __lt__", _c("ties", _ties, prepare=_stash))
+
+
+def _same_values(ctx, side):
+    """an operand holding exactly the receiver's own values (bool flavour): `a | a`, `a ^ a`, `a & a` all differ"""
+    r = ctx.recv[side]
+    o = ctx.other("tc", 0)
+    o.x = (r.get("x") if side == "td" else r.x).clone()
+    if "n" in type(o).__expected_keys__:
+        o.n.y = (r.get(("n", "y")) if side == "td" else r.n.y).clone()
+    else:                                                   # the tensor-only class T1(x, y)
+        o.y = (r.get("y") if side == "td" else r.y).clone()
+    return ((o if side == "tc" else o._tensordict,), {})
+
+
+reg(_BOOLBIN, _c("bool-same-values", _same_values, flavour="bool", prepare=_stash))
 reg("__invert__", _c("bool", A(), flavour="bool"))
 reg("lerp lerp_", _c("scalar-weight", lambda ctx, side: ((ctx.other(side, 1), 0.5), {})))
 reg("addcmul addcdiv addcmul_ addcdiv_",
@@ -138,7 +155,9 @@ reg("norm", _c("default", A()))
 
 # --- keys / entries
 reg("get", _c("tensor", A("x")), _c("nested", A("n")), _c("nontensor", A("s")), _c("nested-key", A(("n", "y"))),
-    _c("missing-default", A("zz", None)), _c("none-field", A("o", None)))
+    _c("missing-default", A("zz", None)), _c("none-field", A("o", None)),
+    # without a default: what a missing key gives (None or KeyError) is the tensordict's choice, the tensorclass follows it
+    _c("missing", A("zz")), _c("missing-nested", A(("n", "zz"))), _c("missing-kw-default", A("zz", default=3)))
 reg("get_at", _c("tensor", A("x", 0)), _c("nested-key", A(("n", "y"), slice(0, 1))))
 reg("get_non_tensor", _c("s", A("s")), _c("nested", A(("n", "t"))))
 reg("get_item_shape entry_class", _c("x", A("x")), _c("s", A("s")), _c("n", A("n")))
@@ -233,7 +252,7 @@ def _entered(recv, ctx, side):
 
 
 reg("__exit__", _c("after-unlock", A(None, None, None), prepare=_entered))
-reg("state_dict", _c("default", A()))
+reg("state_dict", _c("default", A()), _c("flatten", A(flatten=True)), _c("prefix-keep-vars", A(prefix="p.", keep_vars=True)))
 reg("load_state_dict", _c("own", lambda ctx, side: ((ctx.state_dict(side),), {})))
 reg("consolidate", _c("default", A()))
 reg("share_memory_ memmap_refresh_ lock_ unlock_ detach detach_ contiguous cpu pin_memory pin_memory_", _c("default", A()))
@@ -244,7 +263,7 @@ reg("to_h5", _c("file", lambda ctx, side: ((ctx.tmp(side) + "/f.h5",), {})))
 _IDX = [("int", 0), ("slice", slice(0, 1)), ("tuple", (0, slice(None))), ("ellipsis", (Ellipsis, 1)), ("list", [0, 1]),
         ("tensor", torch.tensor([1, 0])), ("mask", torch.tensor([True, False])), ("none", None), ("neg", -1)]
 # (string keys are rejected by tensorclass.__getitem__ on purpose - fields are attributes - so no "str-key" candidate)
-reg("__getitem__", *[_c(l, A(i)) for l, i in _IDX], _c("oob", A(5)))
+reg("__getitem__", *[_c(l, A(i)) for l, i in _IDX], _c("oob", A(5)), _c("empty-tuple", A(())))
 reg("__getitems__", _c("list", A([0, 1])))
 reg("__setitem__",
     _c("int-same", lambda ctx, side: ((0, ctx.other(side, 1)[1]), {})),
